@@ -1010,7 +1010,9 @@ class DNA(symbolic.Object):
                   f'the dictionary {dict_repr!r}.')
 
             if isinstance(value, DNA):
-              children.append(value)
+              # NOTE: the DNA belongs to the caller (it may even be the root
+              # of another DNA): a copy goes into the new one.
+              children.append(value.clone(deep=True))
             else:
               choice_index = _choice_index(subchoice, value)
               subspace_dna = _make_dna(subchoice.candidates[choice_index])
